@@ -97,3 +97,49 @@ Definition agrees_spec (k : mcase) : bool :=
   else true.
 
 Definition agrees (o : KeyOrder) (k : mcase) : bool := agrees_model o k && agrees_spec k.
+
+(* ---------- end-to-end runs through the engine --------------------------------------------------
+   One kernel of one chain: the engine calls tune once after every adaptation epoch; the harness
+   supplies, per adaptation epoch, whether it was a slow one and (for slow epochs) the position
+   chain the engine recorded for that epoch (all kernels' keys), and the inverse mass matrix found
+   in the kernel state stored for the first iteration of the following epoch.  The step size is not
+   compared here (dual averaging overwrites it before tune; property C11). *)
+Record rcase := mkRun {
+  r_keys : list pkey;
+  r_diag : bool;
+  r_init : mm;                                   (* inverse mass matrix before the first epoch *)
+  r_epochs : list (bool * option history);
+  r_coords : list (string * nat);                (* coordinate labels, order of the real position *)
+  r_obs : list mm                                (* observed after each adaptation epoch *)
+}.
+
+Definition run_imm (o : KeyOrder) (r : rcase) (n : nat) : option mm :=
+  option_map imm (run_epochs (fun _ => 1) o (r_diag r) (r_keys r) (mkK 1 (r_init r))
+                             (firstn n (r_epochs r))).
+
+Definition agrees_run_model (o : KeyOrder) (r : rcase) : bool :=
+  list_eqb coord_eqb (flat_coords (r_keys r)) (r_coords r)
+  && Nat.eqb (length (r_obs r)) (length (r_epochs r))
+  && forallb (fun nob => match run_imm o r (S (fst nob)) with
+                         | Some m => mm_close m (snd nob)
+                         | None => false
+                         end) (indexed (r_obs r)).
+
+(* the property read directly: after every slow epoch the observed matrix is the regularised
+   (co)variance of that epoch's chain, coordinate by coordinate as labelled by the real position;
+   after any other epoch it is the matrix observed before *)
+Fixpoint run_spec (diag : bool) (coords : list (string * nat)) (prev : mm)
+         (eps : list (bool * option history)) (obs : list mm) : bool :=
+  match eps, obs with
+  | [], [] => true
+  | (true, Some h) :: eps', m :: obs' =>
+      match spec_mm diag h coords with
+      | Some s => mm_close s m && run_spec diag coords m eps' obs'
+      | None => false
+      end
+  | _ :: eps', m :: obs' => mm_close prev m && run_spec diag coords m eps' obs'
+  | _, _ => false
+  end.
+
+Definition agrees_run (o : KeyOrder) (r : rcase) : bool :=
+  agrees_run_model o r && run_spec (r_diag r) (r_coords r) (r_init r) (r_epochs r) (r_obs r).
